@@ -105,6 +105,7 @@ void verif_suspend_resume(void) {
   verif_env_status();
 }
 
+int g_fini_migrated, g_fini_calls, g_cleanup_job;
 /* ---------------------------------------------------------------- ledger stubs (--replace-calls) */
 void verif_free_stack(myth_running_env_t e, myth_thread_t th) {
   __CPROVER_assert(th == T, "stack release: of the finished thread");
@@ -114,6 +115,7 @@ void verif_free_stack(myth_running_env_t e, myth_thread_t th) {
   __CPROVER_assert(e == cur_env(), "stack release: to the free lists of the CURRENT worker");
   __CPROVER_assert(g_role == ROLE_FINISHER, "stack release: by the finisher only");
   __CPROVER_assert(th->stack == (void *)T_STACK, "stack release: the stack named by the record");
+  __CPROVER_assert(!g_cleanup_job || g_fini_calls == 1, "finish: the thread-specific values of the finishing thread have been destructed (tls fini, exactly once) on every way a thread ends, before its stack is released");
   g_stack_rel = 1;
 }
 void verif_free_desc(myth_running_env_t e, myth_thread_t th) {
@@ -166,8 +168,8 @@ myth_thread_t verif_queue_pop(myth_thread_queue_t q) {
 }
 /* the destructors of thread-specific values (C11) are user code: they may yield or block, so the finishing thread may
    come back from them on ANOTHER worker -- whatever was read from the old worker's descriptor before is stale then */
-int g_fini_migrated;
 void verif_tls_fini(myth_tls_tree_t * t, myth_tls_key_allocator_t * ka) {
+  if (g_fini_calls < 2) g_fini_calls++;
   if (nondet_bool()) {
     myth_running_env_t from = cur_env();
     myth_thread_t me = from->this_thread;
@@ -190,6 +192,7 @@ static void setup(int role) {
   __CPROVER_assume(T_STACK != 0);
   T->stack = (void *)T_STACK;
   T->detached = 0; T->join_thread = 0; T->status = MYTH_STATUS_READY; T->result = 0; T->env = 0;
+  g_cleanup_job = 0; g_fini_calls = 0; g_fini_migrated = 0;
   g_after_switch = 0; g_jumps = 0; g_swaps = 0; g_stack_rel = 0; g_desc_rel = 0; g_lock_held = 0; g_locks = 0; g_unlocks = 0;
   g_handed_over = 0; g_status_at_unlock = -1; g_detached_at_unlock = -1; g_detached_at_lock = -1; g_status_at_lock = -1;
   g_detached_snap = 0; g_status_at_release = -1; g_queue_pops = 0;
@@ -253,6 +256,7 @@ static void b_cleanup(void) {
   WAITER.status = MYTH_STATUS_BLOCKED;
   myth_running_env_t env = cur_env();
   env->this_thread = T; T->env = env;
+  g_cleanup_job = 1; g_fini_calls = 0;
   myth_entry_point_cleanup(T);
   __CPROVER_assert(0, "finish: myth_entry_point_cleanup returned into the finished thread (must be unreachable: every path jumps away)");
 }
